@@ -728,6 +728,14 @@ pub fn check(prop: &Prop, tier: Tier) -> i32 {
         serde_json::to_string_pretty(&evidence).expect("ser"),
     )
     .expect("write evidence");
+    if tier == Tier::Thorough {
+        // the quick tier rewrites evidence/<id>.json on every change; keep the deep run's record too
+        let _ = std::fs::create_dir_all(format!("{root}/evidence/thorough"));
+        let _ = std::fs::write(
+            format!("{root}/evidence/thorough/{}.json", prop.id),
+            serde_json::to_string_pretty(&evidence).expect("ser"),
+        );
+    }
     println!(
         "done {} runs={} execs={} distinct_nontrivial={} faults={} violations={} known={} wall={:.1}s",
         prop.id,
